@@ -20,6 +20,7 @@ import (
 
 type PinFile struct {
 	Values  map[string]uint64 `json:"values"`
+	FValues map[string]float64 `json:"fvalues,omitempty"`
 	Chooses []int             `json:"chooses"`
 }
 
@@ -119,7 +120,7 @@ func RunJob(prog *ssa.Program, fn *ssa.Function, job Job, q *wq.Queue) Result {
 		x.Deadline = time.Now().Add(time.Duration(job.DeadlineS) * time.Second)
 	}
 	if job.Pin != nil {
-		x.Pin = &Pin{Values: job.Pin.Values, Chooses: job.Pin.Chooses}
+		x.Pin = &Pin{Values: job.Pin.Values, FValues: job.Pin.FValues, Chooses: job.Pin.Chooses}
 		x.WitnessK = 0
 	}
 	for k := range InitFailures {
